@@ -47,6 +47,7 @@ CRATE_FINDERS = {
     "tracking": ("src/core/tracking.rs", "units/tracking/finder_test.rs"),
     "config": ("src/core/mod.rs", "units/config/finder_test.rs"),
     "index": ("src/core/mod.rs", "units/index/finder_test.rs"),
+    "analyze": ("src/app/analyze.rs", "units/analyze/finder_test.rs"),
 }
 CACHE = os.path.join(U.VERIF, ".cache")
 
